@@ -440,6 +440,11 @@ func c06Scenarios(thorough bool) []*scenario {
 	add(txScript{peers: [][]string{{"A0"}, {"A0"}}, poll: []int{1}, adv: true, clockThread: true})
 	add(txScript{peers: [][]string{{"A0"}, {"A0", "D0"}}, poll: []int{1}, adv: true})
 	add(txScript{peers: [][]string{{"A0", "D0"}, {"A1", "D1"}}})
+	// an old undelivered transaction: three announcers and the clock passing the request timeout at
+	// any point between them (the announcement after the timeout is a re-request; the next one,
+	// inside the new window, must not be)
+	add(txScript{peers: [][]string{{"A0"}, {"A0"}, {"A0"}}, adv: true, clockThread: true})
+	add(txScript{peers: [][]string{{"A0"}, {"A0", "A0"}}, adv: true, clockThread: true})
 	// the per-poll maximum (sequential): 2-5 transactions, in one bucket and spread over buckets
 	for _, n := range []int{2, 3, 5} {
 		for _, max := range []int{1, 2, 3} {
